@@ -37,6 +37,7 @@ import AutosarVerif.Lemmas.Iter
 import AutosarVerif.Lemmas.MoveOp
 import AutosarVerif.Lemmas.LoadMerge
 import AutosarVerif.Lemmas.StepLM
+import AutosarVerif.Lemmas.MergeKeepsWitness
 
 namespace AV.C03
 open AV.W AV.W.Items
@@ -150,5 +151,13 @@ theorem C03_merging_load_keeps_tree_and_file_sets : type_of% @AV.W.opLoad_merge_
 /-- **fifth alphabet** `ReachLM` (`Lemmas/StepLM.lean`): histories of `ReachL` (core operations, rename, sort, set_reference_target, move, copy, first loads) continued by core operations, rename, sort, set_reference_target and MERGING loads: the tree is well-formed, ids unique, file sets consistent in every reachable state
 `theorem reachLM_inv (hH : IdxHyp S V vOk) (hR : RefWF S) (hv32 : vOk &&& 0xFFFFFFFF = vOk) (hroot : nmAutosar ≠ S.nmShortName) (hNoSub : ∀ t, S.isRef t = true → S.subCount t = 0) {w : World} (h : ReachLM S V vOk rootAttrs nmAutosar w) : Inv w` -/
 theorem C03_invariant_with_merging_loads : type_of% @AV.W.reachLM_inv := @AV.W.reachLM_inv
+
+
+/-! ### added at the end of the third session (proof pack LM3): restated by name
+(`type_of%` keeps the statement identical to the lemma; the signature is quoted in the comment) -/
+
+/-- **negation witness = known finding c03:merge-into-twin-siblings-shares-subtree**: two siblings of one name and item name in the model, the new file holds the partner at another position: `merge_element` answers without error and the id of the partner's child occurs twice in the result
+`theorem shared : res.2 = none ∧ res.1.ids = [1, 2, 15, 3, 4, 15, 11, 12] ∧ ¬ res.1.ids.Nodup` -/
+theorem C03_witness_merge_into_twin_siblings : type_of% @AV.W.LM3.Twin.shared := @AV.W.LM3.Twin.shared
 
 end AV.C03
